@@ -14,6 +14,7 @@ import (
 
 	"github.com/superfly/litefs"
 	lhttp "github.com/superfly/litefs/http"
+	"github.com/superfly/litefs/internal/chunk"
 	"github.com/superfly/litefs/verif/crash"
 	"github.com/superfly/litefs/verif/node"
 	"github.com/superfly/litefs/verif/pager"
@@ -514,6 +515,84 @@ type FaultClient struct {
 
 	StreamsOpened int
 	BytesRead     int64
+
+	// Inject, if set, replaces the next stream: the replica receives exactly these
+	// bytes (a scripted primary) and then end-of-stream. One shot.
+	Inject          []byte
+	InjectClusterID string
+	Injected        int // number of injected streams the node has consumed to the end or closed
+
+	// transcript of what the primary offered on every stream (see Transcript)
+	events []StreamEvent
+}
+
+// StreamEvent is one entry of the replication transcript of a node: a connection
+// (with the positions the node announced) or a transaction file it was offered.
+type StreamEvent struct {
+	Stream  int                // ordinal of the stream on this client
+	Connect map[string]ltx.Pos // set on the connect event
+	Name    string             // database of an LTX frame
+	Hdr     ltx.Header         // header of the offered file
+	Err     string             // the transcript parser could not decode further
+}
+
+// InjectedCount reports how many scripted streams the node has finished with.
+func (fc *FaultClient) InjectedCount() int { fc.mu.Lock(); defer fc.mu.Unlock(); return fc.Injected }
+
+// SetInject arms a scripted stream (see Inject).
+func (fc *FaultClient) SetInject(body []byte, clusterID string) {
+	fc.mu.Lock()
+	fc.Inject, fc.InjectClusterID = body, clusterID
+	fc.mu.Unlock()
+}
+
+// Transcript returns a copy of the events so far.
+func (fc *FaultClient) Transcript() []StreamEvent {
+	fc.mu.Lock()
+	defer fc.mu.Unlock()
+	return append([]StreamEvent(nil), fc.events...)
+}
+
+func (fc *FaultClient) addEvent(e StreamEvent) {
+	fc.mu.Lock()
+	fc.events = append(fc.events, e)
+	fc.mu.Unlock()
+}
+
+// tap parses a copy of the stream bytes into transcript events.
+func (fc *FaultClient) tap(id int, r *io.PipeReader) {
+	defer func() { _, _ = io.Copy(io.Discard, r) }()
+	for {
+		frame, err := litefs.ReadStreamFrame(r)
+		if err != nil {
+			return
+		}
+		if f, ok := frame.(*litefs.LTXStreamFrame); ok {
+			cr := chunk.NewReader(r)
+			hdr, _, err := ltx.DecodeHeader(cr)
+			if err != nil {
+				fc.addEvent(StreamEvent{Stream: id, Name: f.Name, Err: err.Error()})
+				return
+			}
+			fc.addEvent(StreamEvent{Stream: id, Name: f.Name, Hdr: hdr})
+			if _, err := io.Copy(io.Discard, cr); err != nil {
+				return
+			}
+		}
+	}
+}
+
+type injectedStream struct {
+	io.Reader
+	fc        *FaultClient
+	clusterID string
+	once      sync.Once
+}
+
+func (s *injectedStream) ClusterID() string { return s.clusterID }
+func (s *injectedStream) Close() error {
+	s.once.Do(func() { s.fc.mu.Lock(); s.fc.Injected++; s.fc.mu.Unlock() })
+	return nil
 }
 
 var _ litefs.Client = (*FaultClient)(nil)
@@ -628,13 +707,31 @@ func (fc *FaultClient) Stream(ctx context.Context, primaryURL string, nodeID uin
 	if refuse {
 		return nil, fmt.Errorf("dial: %w", syscall.ECONNREFUSED)
 	}
+	fc.mu.Lock()
+	inj, injID := fc.Inject, fc.InjectClusterID
+	fc.Inject = nil
+	fc.mu.Unlock()
+	if inj != nil {
+		return &injectedStream{Reader: strings.NewReader(string(inj)), fc: fc, clusterID: injID}, nil
+	}
 	st, err := fc.Inner.Stream(ctx, primaryURL, nodeID, posMap, filter)
 	if err != nil {
 		return nil, err
 	}
 	fs := &faultStream{Stream: st, fc: fc}
+	pr, pw := io.Pipe()
+	fs.tapW = pw
+	announced := map[string]ltx.Pos{}
+	for k, v := range posMap {
+		announced[k] = v
+	}
 	fc.mu.Lock()
 	fc.StreamsOpened++
+	id := fc.StreamsOpened
+	fc.events = append(fc.events, StreamEvent{Stream: id, Connect: announced})
+	fc.mu.Unlock()
+	go fc.tap(id, pr)
+	fc.mu.Lock()
 	if fc.cutAfter > 0 {
 		fs.remaining, fs.armed = fc.cutAfter, true
 		fc.cutAfter = 0
@@ -650,6 +747,7 @@ type faultStream struct {
 	remaining int64
 	armed     bool
 	closed    bool
+	tapW      *io.PipeWriter
 }
 
 func (s *faultStream) Read(p []byte) (int, error) {
@@ -674,6 +772,9 @@ func (s *faultStream) Read(p []byte) (int, error) {
 	}
 	fc.mu.Unlock()
 	n, err := s.Stream.Read(p)
+	if n > 0 && s.tapW != nil {
+		_, _ = s.tapW.Write(p[:n])
+	}
 	fc.mu.Lock()
 	fc.BytesRead += int64(n)
 	if s.armed {
@@ -689,6 +790,9 @@ func (s *faultStream) Close() error {
 	delete(s.fc.streams, s)
 	s.fc.cond.Broadcast()
 	s.fc.mu.Unlock()
+	if s.tapW != nil {
+		_ = s.tapW.Close()
+	}
 	return s.Stream.Close()
 }
 
